@@ -46,6 +46,9 @@ pub enum Strategy {
     Pct { prio: Vec<u32>, change: Vec<u64> },
     /// like Sticky(50) but forces a switch right after a successful CAS with probability 1/2
     Targeted,
+    /// stalls a thread right *before* one of its CASes (probability per 1000) for a random number of decisions, so
+    /// that other threads complete whole operations between its load and its CAS (the window of ABA-shaped bugs)
+    StallBeforeCas(u32),
 }
 
 impl Strategy {
@@ -55,6 +58,7 @@ impl Strategy {
             Strategy::Sticky(_) => "sticky",
             Strategy::Pct { .. } => "pct",
             Strategy::Targeted => "targeted",
+            Strategy::StallBeforeCas(_) => "stall_before_cas",
         }
     }
 }
@@ -127,6 +131,9 @@ pub struct MtState {
     pub rng: Rng,
     pub strategy: Strategy,
     pub switch_hint: bool,
+    /// the arriving access is a CAS (set by `before` for the strategy)
+    pub at_cas: bool,
+    pub stalled_until: Vec<u64>,
     pub schedule: Vec<(u8, u32)>,
     pub replay: Option<Vec<u8>>,
     pub replay_pos: usize,
@@ -277,7 +284,16 @@ impl MtState {
     }
 
     fn runnable(&self) -> Vec<usize> {
-        (0..self.n).filter(|t| self.status[*t] != TStatus::Finished && (!self.parked[*t] || self.confirm_left.is_some())).collect()
+        let all: Vec<usize> = (0..self.n).filter(|t| self.status[*t] != TStatus::Finished && (!self.parked[*t] || self.confirm_left.is_some())).collect();
+        if self.confirm_left.is_some() {
+            return all;
+        }
+        let awake: Vec<usize> = all.iter().cloned().filter(|t| self.stalled_until[*t] <= self.decisions).collect();
+        if awake.is_empty() {
+            all
+        } else {
+            awake
+        }
     }
 
     fn log_decision(&mut self, t: usize) {
@@ -379,6 +395,25 @@ impl MtState {
                         }
                     }
                     None => run[self.rng.below(run.len() as u64) as usize],
+                }
+            }
+            Strategy::StallBeforeCas(p) => {
+                let p = *p as u64;
+                let at_cas = std::mem::take(&mut self.at_cas);
+                match cur_ok {
+                    Some(m) if at_cas && run.len() > 1 && self.rng.chance(p, 1000) => {
+                        // stall m in front of its CAS and let the others run whole operations
+                        let k = match self.rng.below(4) {
+                            0 => self.rng.range(3, 20),
+                            1..=2 => self.rng.range(20, 120),
+                            _ => self.rng.range(100, 400),
+                        };
+                        self.stalled_until[m] = self.decisions + k;
+                        let others: Vec<usize> = run.iter().cloned().filter(|x| *x != m).collect();
+                        others[self.rng.below(others.len() as u64) as usize]
+                    }
+                    Some(m) if !self.rng.chance(40, 1000) => m,
+                    _ => run[self.rng.below(run.len() as u64) as usize],
                 }
             }
             Strategy::Pct { prio, change } => {
@@ -520,6 +555,7 @@ pub fn before(t: usize, a: &Access) -> bool {
         abort_run("aborted", String::new());
     }
     // ---- scheduling decision
+    s.at_cas = matches!(a.kind, Kind::Cas | Kind::CasWeak);
     let next = s.decide(Some(t));
     if s.abort.is_some() {
         drop(g);
@@ -1245,6 +1281,8 @@ pub fn install(arena: &Arena, p: &MtParams, initial_shadow: Vec<ShadowRange>) {
         rng: Rng::new(p.sched_seed),
         strategy: p.strategy.clone(),
         switch_hint: false,
+        at_cas: false,
+        stalled_until: vec![0; n],
         schedule: Vec::new(),
         replay: p.replay_schedule.as_ref().map(|r| expand_schedule(r)),
         replay_pos: 0,
